@@ -382,6 +382,7 @@ def run_fault(case):
     stats["fault_points"] = n
     stats["routines"] = 1
     ops0 = [e["op"] for e in log0 if e["op"] in FAULT_OPS]
+    lock_replaced = {e.get("path2") for e in log0 if e["op"] in ("replace", "rename") and (e["path"] or "").endswith(".lock")}
     locks_used = sorted(set(e["path"] for e in log0 if e["path"] and e["path"].endswith(".lock")))
     nrun = 0
     outcomes = {}
@@ -410,7 +411,7 @@ def run_fault(case):
                 # the fault was absorbed: the result must be the complete new state
                 # (only files that are replaced through a lock file: removing a loose ref after packing it is not a locked write)
                 for f in changed:
-                    if f + ".lock" not in locks_used:
+                    if f not in lock_replaced:
                         continue
                     if st.get(f) != after.get(f) and not f.endswith(".lock"):
                         viol.append({"sig": "C07/fault/%s/reported-success-but-file-not-new" % vtag, "file": f, "k": k})
